@@ -3,6 +3,7 @@ CONSTANTS
   MaxPieces = 2
   MaxPhrase = 3
   MaxTmpl = 0
+  MaxDeep = 0
   Hosts = {"out", "include"}
   EmitAll = TRUE
 INVARIANTS Emit
